@@ -48,6 +48,7 @@ func main() {
 	tier := flag.String("tier", "quick", "quick|thorough")
 	only := flag.String("harness", "", "run only this harness function")
 	replay := flag.String("replay", "", "replay file: run natively only")
+	concrete := flag.String("concrete", "", "replay file: run in the engine with these concrete inputs (development)")
 	workers := flag.Int("workers", 16, "parallel workers")
 	trace := flag.Bool("trace", false, "trace interpreter")
 	noNative := flag.Bool("no-native", false, "skip native replays/conformance (development)")
@@ -76,6 +77,9 @@ func main() {
 		Only: *only, Verbose: *verbose, Mutant: *mutant, Start: time.Now()}
 	if *replay != "" {
 		os.Exit(r.ReplayOnly(*replay))
+	}
+	if *concrete != "" {
+		os.Exit(r.ConcreteOnly(*concrete))
 	}
 	os.Exit(r.Main())
 }
